@@ -75,7 +75,9 @@ def setup():
         w = App.world
         if w is not None and not w.closed:
             w.send_calls.append(bytes(data))
-            w.send_calls_by.setdefault(id(self), []).append(bytes(data))
+            # keyed by the connection the dispatcher's socket belongs to (not by id(self): ids are reused)
+            conn = getattr(getattr(self, "socket", None), "conn", None)
+            w.send_calls_by.setdefault(conn.id if conn is not None else None, []).append(bytes(data))
             if len(data) > 65536:
                 w.probe("big_frame_gt_64k")
         r = orig(self, data)
@@ -418,10 +420,9 @@ class W(wire.World):
         for e in self.net.log:
             if e[0] == "send":
                 by_conn.setdefault(e[1], []).append(e[2])
-        socks = [b"".join(v) for _, v in sorted(by_conn.items())]
-        streams = [b"".join(v) for v in self.send_calls_by.values()]
-        for ci, sock in enumerate(socks):
-            stream_i = streams[ci] if ci < len(streams) else b""
+        for ci, parts in sorted(by_conn.items()):
+            sock = b"".join(parts)
+            stream_i = b"".join(self.send_calls_by.get(ci, []))
             if sock != stream_i[:len(sock)] and not self.violations:
                 i = 0
                 while i < min(len(sock), len(stream_i)) and sock[i] == stream_i[i]:
